@@ -22,4 +22,12 @@ PROPS = {
              "types.ResolveBinaryExpressionType on all 51 597 triples and compiles all 2 548 spellable programs at both optimisation levels, comparing "
              "accept/reject, result type and operand conversions. The domain is finite and is enumerated completely.",
         note=_TRUST + "Not judged (left open by the statement): matrix comparison, one-component vectors, vector x one-row matrix, operand conversions of comparisons."),
+    "C10": dict(
+        claimed=True, level="model_checking",
+        technique="TLA+ overload-resolution operator (NslTypes!Best) enumerated by TLC over all ordered overload sets x argument lists with order-independence and optimality invariants; every cell replayed at Scope.FindFunction and through compiler+VM (spec->code conformance)",
+        text="TLC enumerates every ordered set of up to three distinct signatures (up to two parameters) over the tier's type universe and every argument "
+             "type list, checks on the specification that the answer is independent of declaration order and that a chosen candidate is viable and strictly "
+             "cheapest, and prints the prescribed outcome; the driver replays all cells at RegisterFunction/FindFunction and compiles and runs the sets of up to "
+             "two overloads (distinct constant per overload) at both optimisation levels. Exhaustive within the stated universe.",
+        note=_TRUST + "Convertible = same shape class and size; one-component vectors are outside the universe."),
 }
